@@ -121,6 +121,11 @@ fn eval_redeemer_with_optional_protocol(
             return Err(Error::Machine(err, cost, eval_result.traces()));
         }
 
+        // A PlutusV3 script succeeds only if it evaluates to unit.
+        if eval_result.failed(false, lang) {
+            return Err(Error::InvalidReturnValue(cost, eval_result.traces()));
+        }
+
         let new_redeemer = Redeemer {
             tag: redeemer.tag,
             index: redeemer.index,
